@@ -1,11 +1,13 @@
 /-
 C12 proofs, part 7: every reachable state of the accounting machine satisfies the invariant.
 -/
-import NeoModel.Proofs.VmAcctStep
+import NeoModel.Proofs.VmAcctKindsS
 namespace NeoModel.VmAcct
 
-/-- what is covered by the invariant proofs: every frame-level instruction, and the stack/heap
-instructions of `SOp.core` under `SOp.okFor` -/
+/-- the side conditions under which the per-instruction accounting lemmas are proved: map keys are
+primitives and a map's children come in pairs (`SOp.okFor`). They are NOT hypotheses of the final
+theorems: `okFor_of_step` derives them from the Map shape invariant (Proofs/VmAcctKinds*.lean), which
+every reachable state satisfies. -/
 def Op.okFor (op : Op) (s : St) : Prop :=
   match op with
   | .s sop => sop.core = true ∧ sop.okFor s.w
@@ -17,11 +19,11 @@ def cleanUnwind (s : St) (op : Op) (unw : Option (Nat × Bool)) : Prop :=
 
 theorem exec_inv {s : St} {lk : List Item} (op : Op) (hok : op.okFor s) (inv : InvS s lk) (r : Res) (h : exec op s = some r) :
     ∃ lk', InvS r.s lk' ∧ (∀ x, r.raised = some x → WfItem r.s.c.heap x) ∧ s.c.heap.length ≤ r.s.c.heap.length ∧
-      (Acyclic s.c.heap → s.base = [] → lk = [] → lk' = []) := by
+      (Acyclic s.c.heap → s.base = [] → lk' = lk) := by
   have fromPost : PostS s lk r → ∃ lk', InvS r.s lk' ∧ (∀ x, r.raised = some x → WfItem r.s.c.heap x) ∧
-      s.c.heap.length ≤ r.s.c.heap.length ∧ (Acyclic s.c.heap → s.base = [] → lk = [] → lk' = []) := fun p => by
+      s.c.heap.length ≤ r.s.c.heap.length ∧ (Acyclic s.c.heap → s.base = [] → lk' = lk) := fun p => by
     obtain ⟨lk', i, hl⟩ := p.ex
-    exact ⟨lk', i, p.raised, p.len, fun ha _ hk => hl ha hk⟩
+    exact ⟨lk', i, p.raised, p.len, fun ha _ => hl ha⟩
   cases op with
   | s sop => exact fromPost (exec_s_inv sop hok.1 hok.2 inv r h)
   | nop => exact fromPost (exec_nop_inv inv r h)
@@ -35,11 +37,25 @@ theorem exec_inv {s : St} {lk : List Item} (op : Op) (hok : op.okFor s) (inv : I
   | endfinally => exact fromPost (exec_endfinally_inv inv r h)
   | ret =>
     obtain ⟨lk', i, hr, hl, hb⟩ := exec_ret_inv inv r h
-    exact ⟨lk', i, (by intro x hx; rw [hr] at hx; cases hx), hl, fun _ hbase hk => by rw [hb hbase, hk]⟩
+    exact ⟨lk', i, (by intro x hx; rw [hr] at hx; cases hx), hl, fun _ hbase => hb hbase⟩
 
+theorem droppedBy_clean {s : St} {op : Op} {unw : Option (Nat × Bool)} (h : cleanUnwind s op unw) : droppedBy s op unw = [] := by
+  unfold droppedBy
+  split
+  · rename_i r k c he
+    split
+    · rename_i hr
+      cases hx : r.raised with
+      | none => simp [hx] at hr
+      | some x => exact droppedOf_clean (h r x k c he hx rfl)
+    · rfl
+  · rfl
+
+/-- one step: the leaked list grows by EXACTLY the items of the dropped evaluation stacks as long as
+no cyclic structure exists -/
 theorem step_inv {s s' : St} {lk : List Item} (op : Op) (unw : Option (Nat × Bool)) (ext : Bool) (hok : op.okFor s)
     (inv : InvS s lk) (h : step s op unw ext = some s') :
-    ∃ lk', InvS s' lk' ∧ (Acyclic s.c.heap → s.base = [] → cleanUnwind s op unw → lk = [] → lk' = []) := by
+    ∃ lk', InvS s' lk' ∧ (Acyclic s.c.heap → s.base = [] → lk' = lk ++ droppedBy s op unw) := by
   simp only [step] at h
   split at h
   · cases h
@@ -55,7 +71,14 @@ theorem step_inv {s s' : St} {lk : List Item} (op : Op) (unw : Option (Nat × Bo
         · cases h
         · simp only [Option.some.injEq] at h
           subst h
-          exact ⟨lk1, i1, fun ha hb _ hk => hac ha hb hk⟩
+          refine ⟨lk1, i1, fun ha hb => ?_⟩
+          have hd : droppedBy s op unw = [] := by
+            unfold droppedBy
+            rw [he]
+            cases unw with
+            | none => rfl
+            | some p => simp [hr]
+          rw [hd, hac ha hb]; simp
       | some x =>
         cases hu : unw with
         | none => simp [hr, hu] at h
@@ -70,15 +93,38 @@ theorem step_inv {s s' : St} {lk : List Item} (op : Op) (unw : Option (Nat × Bo
             · cases h
             · simp only [Option.some.injEq] at h
               subst h
-              obtain ⟨lk2, i2, _, hclean⟩ := unwind_inv x k c i1 (hraised x hr) hw
-              refine ⟨lk2, i2, fun ha hb hcl hk => ?_⟩
-              rw [hclean (hcl r x k c he hr rfl), hac ha hb hk]
+              obtain ⟨lk2, i2, _, hdrop⟩ := unwind_inv x k c i1 (hraised x hr) hw
+              refine ⟨lk2, i2, fun ha hb => ?_⟩
+              have hd : droppedBy s op (some (k, c)) = droppedOf k r.s.frames := by
+                unfold droppedBy
+                rw [he]; simp [hr]
+              rw [hdrop, hac ha hb, hd]
 
-/-- runs of the accounting machine over covered instructions -/
+/-- the side conditions hold for every instruction that the machine executes without faulting in a
+state that satisfies the Map shape invariant -/
+theorem okFor_of_step {s s' : St} (op : Op) (unw : Option (Nat × Bool)) (ext : Bool) (g : MapInv s)
+    (h : step s op unw ext = some s') : op.okFor s := by
+  cases op with
+  | s sop =>
+    refine ⟨by cases sop <;> rfl, ?_⟩
+    simp only [step] at h
+    split at h
+    · cases h
+    · cases he : exec (.s sop) s with
+      | none => simp [he] at h
+      | some r =>
+        simp only [exec] at he
+        cases hx : execS sop s.w with
+        | none => simp [hx] at he
+        | some out => exact okFor_of_mapInv sop g out hx
+  | _ => trivial
+
+/-- runs of the accounting machine: ANY sequence of instructions, resolved arguments, unwinding
+outcomes and external faults (no side condition) -/
 inductive Run : St → Prop where
   | init : Run St.init
   | step {s s' : St} (op : Op) (unw : Option (Nat × Bool)) (ext : Bool) :
-      Run s → op.okFor s → step s op unw ext = some s' → Run s'
+      Run s → step s op unw ext = some s' → Run s'
 
 theorem init_inv : InvS St.init [] := by
   refine ⟨⟨?_, ?_, ?_⟩, ?_⟩
@@ -87,16 +133,23 @@ theorem init_inv : InvS St.init [] := by
   · simp [St.init, St.roots, Frame.roots, slotItems, heldLen]
   · intro x hx; simp [St.init] at hx
 
+/-- every reachable state satisfies the Map shape invariant: every Map's children come in
+key/value pairs with primitive keys, every compound has one kind -/
+theorem run_mapInv {s : St} (h : Run s) : MapInv s := by
+  induction h with
+  | init => exact init_mapInv
+  | step op unw ext _ hs ih => exact step_mapInv op unw ext ih hs
+
 theorem run_inv {s : St} (h : Run s) : ∃ lk, InvS s lk := by
   induction h with
   | init => exact ⟨[], init_inv⟩
-  | step op unw ext _ hok hs ih =>
+  | step op unw ext hr hs ih =>
     obtain ⟨lk, i⟩ := ih
-    obtain ⟨lk', i', _⟩ := step_inv op unw ext hok i hs
+    obtain ⟨lk', i', _⟩ := step_inv op unw ext (okFor_of_step op unw ext (run_mapInv hr) hs) i hs
     exact ⟨lk', i'⟩
 
-/-- **refs_sound**: in every state the accounting machine reaches through covered instructions,
-what is reachable by walking does not exceed the implementation's counter. -/
+/-- **refs_sound**: in every state the accounting machine reaches, what is reachable by walking does
+not exceed the implementation's counter. -/
 theorem refs_sound {s : St} (h : Run s) : (s.reach : Int) ≤ s.c.refs := by
   obtain ⟨lk, i⟩ := run_inv h
   exact reach_le_refs s.c s.roots lk (i.ctr.congr (by intro id; simp) (by simp))
@@ -110,7 +163,12 @@ evaluation stack with content -/
 inductive RunExact : St → Prop where
   | init : RunExact St.init
   | step {s s' : St} (op : Op) (unw : Option (Nat × Bool)) (ext : Bool) :
-      RunExact s → op.okFor s → Acyclic s.c.heap → cleanUnwind s op unw →
+      RunExact s → Acyclic s.c.heap → cleanUnwind s op unw →
       step s op unw ext = some s' → RunExact s'
+
+theorem RunExact.run {s : St} (h : RunExact s) : Run s := by
+  induction h with
+  | init => exact Run.init
+  | step op unw ext _ _ _ hs ih => exact Run.step op unw ext ih hs
 
 end NeoModel.VmAcct
